@@ -12,6 +12,7 @@ structure DState where
   broker : Drv.Broker.St := {}
   bc : Drv.BC.St := {}
   service : Drv.Service.St := {}
+  client : Drv.Client.CSt := {}
 
 def dispatch (st : DState) (line : String) : DState × String :=
   let toks := (line.splitOn " ").filter (· ≠ "")
@@ -33,6 +34,10 @@ def dispatch (st : DState) (line : String) : DState × String :=
   | "sv" :: rest =>
     match Drv.Service.handle st.service rest with
     | some (t, out) => ({ st with service := t }, out)
+    | none => (st, "bad-op")
+  | "cl" :: rest =>
+    match Drv.Client.handle st.client rest with
+    | some (t, out) => ({ st with client := t }, out)
     | none => (st, "bad-op")
   | "sess" :: rest =>
     match Drv.Session.handle st.session rest with
